@@ -41,6 +41,8 @@ ScriptRecord ==
   IN [mode |-> "script", cfg |-> cfg, cl |-> rq.cl, steps |-> rq.steps, term |-> rq.term,
       npre |-> rq.npre, cause |-> rq.cause, runs |-> ran[r], exp |-> ExpJson(rq, cfg, full[r]),
       sub |-> SubChains(rq, cfg, full[r]),
+      \* the values of the handler's headers (per name: at the first commit / at the end of the handler)
+      hv |-> [lo |-> HdrValsLo(rq.steps), hi |-> HdrValsHi(rq.steps)],
       \* handler end and deadline coincide: either outcome (DESIGN section 5); only used for in-time requests
       boundary |-> IF IsAny(rq, cfg, full[r]) THEN [any |-> TRUE, set |-> {}]
                    ELSE [any |-> FALSE, set |-> Expected(rq, cfg, full[r]) \cup TimeoutResp("deadline")]]
